@@ -37,6 +37,7 @@ NamesAll == {
 NamesSmall == {<<"P", "good", "attr">>, <<"P", "good", "nope">>, <<"P", "bad_ie", "x">>, <<"P", "bad_other">>,
                <<"P", "sub", "leaf">>, <<"N", "mod">>, <<"P", "loop">>}
 AltAll == {"default", "given"}
+AltGiven == {"given"}
 CbAll == {"nocb", "cb"}
 CbOnly == {"cb"}
 =============================================================================
